@@ -152,9 +152,20 @@ pub enum Chunk {
     Bytes64,
     /// 7-byte writes for the first 4200 bytes (600 writes), then 65521-byte writes
     Seven,
-    /// 16 KiB writes from the first byte to the last (slow-reader sub-matrix only, not in `ALL`)
+    /// 16 KiB writes from the first byte to the last, back to back (self-test of the slow-reader
+    /// oracle only, not in `ALL`)
     K16,
+    /// 16 KiB writes from the first byte to the last, `K16_PAUSE` apart (slow-reader sub-matrix
+    /// only, not in `ALL`). The pause matters: the subject's bridges put EVERYTHING they can read
+    /// at one go into one `Push` frame and its window counts frames, not bytes, so a writer that
+    /// never pauses travels as a handful of frames of many megabytes each and no window ever fills
+    /// (measured: 256 MiB written in under 3 s with nobody reading). Writes that are a little apart
+    /// travel as about one frame each.
+    K16Paced,
 }
+
+/// `Chunk::K16Paced`: the pause after every write
+pub const K16_PAUSE: Duration = Duration::from_millis(1);
 
 impl Chunk {
     pub const ALL: [Chunk; 3] = [Chunk::One, Chunk::Bytes64, Chunk::Seven];
@@ -164,10 +175,11 @@ impl Chunk {
             Chunk::Bytes64 => "1-byte-x64",
             Chunk::Seven => "7-byte",
             Chunk::K16 => "16-KiB-writes",
+            Chunk::K16Paced => "16-KiB-writes-1-ms-apart",
         }
     }
     pub fn parse(s: &str) -> Option<Self> {
-        Self::ALL.into_iter().chain([Chunk::K16]).find(|e| e.name() == s)
+        Self::ALL.into_iter().chain([Chunk::K16, Chunk::K16Paced]).find(|e| e.name() == s)
     }
 }
 
@@ -294,7 +306,7 @@ pub const SLOW_TRANSFER_S: u64 = 60;
 /// halves of a half-responder are non-empty; far below any buffer)
 pub const SLOW_REVERSE_LEN: usize = 4099;
 /// slow-reader sub-matrix: every payload is written like this
-pub const SLOW_CHUNK: Chunk = Chunk::K16;
+pub const SLOW_CHUNK: Chunk = Chunk::K16Paced;
 
 #[derive(Clone, Debug, PartialEq, Eq, Hash)]
 pub struct TcpCase {
@@ -506,7 +518,7 @@ fn lock(s: &Shared) -> std::sync::MutexGuard<'_, Side> {
 async fn write_chunked<W: AsyncWrite + Unpin>(w: &mut W, data: &[u8], chunk: Chunk, st: &Shared) -> std::io::Result<()> {
     let mut at = 0usize;
     let small_until = match chunk {
-        Chunk::One | Chunk::K16 => 0,
+        Chunk::One | Chunk::K16 | Chunk::K16Paced => 0,
         Chunk::Bytes64 => data.len().min(64),
         Chunk::Seven => data.len().min(4200),
     };
@@ -521,7 +533,7 @@ async fn write_chunked<W: AsyncWrite + Unpin>(w: &mut W, data: &[u8], chunk: Chu
     }
     let big = match chunk {
         Chunk::Seven => 65521,
-        Chunk::K16 => 16 * 1024,
+        Chunk::K16 | Chunk::K16Paced => 16 * 1024,
         Chunk::One | Chunk::Bytes64 => usize::MAX,
     };
     while at < data.len() {
@@ -529,6 +541,9 @@ async fn write_chunked<W: AsyncWrite + Unpin>(w: &mut W, data: &[u8], chunk: Chu
         w.write_all(&data[at..end]).await?;
         at = end;
         lock(st).tx_bytes = at;
+        if chunk == Chunk::K16Paced {
+            tokio::time::sleep(K16_PAUSE).await;
+        }
     }
     w.flush().await?;
     Ok(())
@@ -1215,9 +1230,6 @@ pub async fn run_tcp(mode: &Mode<'_>, case: &TcpCase, deadline_s: u64, uniq: u64
     }
 
     let lab = case.label();
-    if case.slow.is_some() {
-        eprintln!("DEBUGSLOW {lab}: wall {:?} c.stall {:?} t.stall {:?}", t0.elapsed(), cs.iter().map(|c| c.stall_peer_tx.clone()).collect::<Vec<_>>(), ts.iter().map(|c| c.stall_peer_tx.clone()).collect::<Vec<_>>());
-    }
     // slow-reader sub-matrix: same oracle, keys of their own
     let key_sfx = case.slow.map_or("", |s| s.dir.key_suffix());
     let mut push = |key: String, desc: String, dl: bool| failures.push(Failure { key: if key == "machinery" { key } else { format!("{key}{key_sfx}") }, desc: format!("{lab}: {desc}{subject_note}"), deadline: dl });
